@@ -214,7 +214,7 @@ pub fn gen_scenario(run_seed: u64, variant: &str, tier: Tier) -> E2Scenario {
         missing_pct: 0,
         repeats: true,
         cycles: true,
-        force_module_specifier: false,
+        force_module_specifier: variant == "c17" && base.fork("e4").chance(1, 2),
         outside_docs: variant == "arte" || variant == "c13",
         max_files: if variant == "c17" { 6 } else { 5 },
         closed_imports: true,
@@ -1091,6 +1091,61 @@ fn drive_c17(sc: &E2Scenario, rep: &mut RunReport) {
         return;
     };
     if g.exit == 0 {
+        // 4. in-process = CLI (E4): the same pipeline through the library API, on a thread
+        //    with another hash seed, must produce the text of every declaration file
+        let p = &sc.project;
+        if p.gen_str("schemaModuleSpecifier").is_some() && p.config.plugins.is_empty() {
+            let texts: BTreeMap<String, String> = sc.tree.iter().cloned().collect();
+            let schema_in = sc.schema_inputs();
+            let op_in = sc.op_inputs();
+            let mut order_s: Vec<String> = Vec::new();
+            let mut order_o: Vec<String> = Vec::new();
+            for t in g.trace.iter().filter(|t| t.name == "open_r") {
+                let np = indep::norm(&t.path);
+                if schema_in.contains(&np) && !order_s.contains(&np) {
+                    order_s.push(np);
+                } else if op_in.contains(&np) && !order_o.contains(&np) {
+                    order_o.push(np);
+                }
+            }
+            if order_s.len() == schema_in.len() && order_o.len() == op_in.len() {
+                let sfiles: Vec<(String, String)> = order_s.iter().map(|p| (p.clone(), texts[p].clone())).collect();
+                let ofiles: Vec<(String, String)> = order_o.iter().map(|p| (p.clone(), texts[p].clone())).collect();
+                let cfg = p.config_text();
+                let hs = sc.hash_seeds[0] ^ 0x5a5a_1234;
+                let out = crate::hashseed::on_fresh_instance(hs, move || crate::libgen::lib_generate(&cfg, &sfiles, &ofiles));
+                match out {
+                    Err(e) => rep.violate(&["C17"], "C17.4-library-pipeline-fails", format!("the CLI generated successfully but the library pipeline fails: {e}")),
+                    Ok(lib) => {
+                        rep.probe("library_pipeline_compared");
+                        let trailer = |path: &str| format!("\n//# sourceMappingURL={}.map\n", indep::basename(path));
+                        let mut cmp = |path: String, text: &String, what: &str| {
+                            if let Some(cli) = gtree.get(&path) {
+                                let want = format!("{text}{}", trailer(&path));
+                                if *cli != want.as_bytes() {
+                                    rep.violate(
+                                        &["C17"],
+                                        &format!("C17.4-library-differs-from-cli:{what}"),
+                                        format!("{path}: the text produced through the library API in-process differs from the file the CLI wrote ({} vs {} bytes)", want.len(), cli.len()),
+                                    );
+                                }
+                            }
+                        };
+                        if let Some(so) = p.gen_str("schemaOutput") {
+                            cmp(p.abs(&so), &lib.schema, "schema");
+                        }
+                        if let Some(ro) = p.gen_str("resolversOutput") {
+                            cmp(p.abs(&ro), &lib.resolvers, "resolvers");
+                        }
+                        for (i, op) in op_in.iter().enumerate() {
+                            if let Some(t) = lib.ops.get(op) {
+                                cmp(p.decl_abs(i), t, "operation");
+                            }
+                        }
+                    }
+                }
+            }
+        }
         // 2. re-run on the tree left by the first run
         sandbox::reset_tree(&gtree);
         let (r2, after2) = rn.on_tree(cmds, "json", sc.hash_seeds[sc.hash_seeds.len() - 1], Some(sc.readdir_seeds[1]), &[]);
